@@ -921,6 +921,15 @@ impl Inner {
         // First, ensure that the initiating stream is still in a valid state.
         let parent_key = match self.store.find_mut(&id) {
             Some(stream) => {
+                // A push is associated with a request: a stream that we have
+                // initiated and that the peer has seen (RFC 9113, section
+                // 8.4). Not a pushed stream, and not a request that is still
+                // waiting to be sent.
+                if !self.counts.peer().is_local_init(id) || stream.is_pending_open {
+                    proto_err!(conn: "recv_push_promise: {:?} is not an opened request stream", id);
+                    return Err(Error::library_go_away(Reason::PROTOCOL_ERROR));
+                }
+
                 // The GOAWAY process has begun. All streams with a greater ID
                 // than specified as part of GOAWAY should be ignored.
                 if id > self.actions.recv.max_stream_id() {
